@@ -160,6 +160,10 @@ def run(rec, tier, seed):
     for pat in ('pair-y', 'collinear3-y', 'planar3-y', 'planar3-z'):
         for which in range(3):
             bases.append(dict(special='axis-poses', cell='cubic', pattern=pat, which=which, seed=seed * 100 + 78))
+    # occurrences that overlap and are met from two start atoms each (CH2 chain, atoms listed in random order; a centre with four equivalent neighbours)
+    for k in range(2 if tier == 'quick' else 6):
+        bases.append(dict(special='alkane', seed=seed * 100 + 40 + k))
+        bases.append(dict(special='methane', seed=seed * 100 + 60 + k))
     for spec in bases:
         case = load_case(spec)
         ts = transforms(case, tier, seed)
